@@ -122,7 +122,11 @@ func (c OptionalColumn) ReadOr(s string) string {
 	if c.i < 0 {
 		return s
 	}
-	return c.f.currentRow.cells[c.i]
+	// A blank cell means the value is absent, the same as when the column is missing.
+	if cell := c.f.currentRow.cells[c.i]; cell != "" {
+		return cell
+	}
+	return s
 }
 
 func (f *File) NextRow() bool {
